@@ -94,6 +94,36 @@ def gate_proxies(ctx):
         ctx.record(fam, UNKNOWN)
         ctx.undecide(fam, "structure drift: no integer literals found in assert_connectivity_is_supported")
         return
+    # soundness of the 'any other string' proxy: it is not a str, so the argument only stands if the NAME parameter is used in nothing but ==, !=, membership in a
+    # list/tuple/set DISPLAY (not in a string: `c in ("all")` is a substring test), f-string formatting, and as an argument passed on unchanged
+    uses = []
+    for fn_ in (cs.assert_connectivity_is_supported, cs.is_connectivity_supported):
+        t_ = ast.parse(textwrap.dedent(inspect.getsource(fn_)))
+        fd = t_.body[0]
+        pname = fd.args.args[1].arg if len(fd.args.args) > 1 else None
+        parents = {}
+        for nd in ast.walk(t_):
+            for ch in ast.iter_child_nodes(nd):
+                parents[ch] = nd
+        for nd in ast.walk(t_):
+            if isinstance(nd, ast.Name) and nd.id == pname and isinstance(nd.ctx, ast.Load):
+                par = parents.get(nd)
+                okuse = False
+                if isinstance(par, ast.Compare) and par.left is nd and len(par.ops) == 1:
+                    op, rhs = par.ops[0], par.comparators[0]
+                    okuse = (isinstance(op, (ast.Eq, ast.NotEq)) and isinstance(rhs, ast.Constant)) or \
+                            (isinstance(op, (ast.In, ast.NotIn)) and isinstance(rhs, (ast.List, ast.Tuple, ast.Set)) and all(isinstance(e, ast.Constant) for e in rhs.elts))
+                elif isinstance(par, ast.FormattedValue):
+                    okuse = True
+                elif isinstance(par, ast.Call) and nd in par.args and isinstance(par.func, ast.Name) and par.func.id in ("assert_connectivity_is_supported", "is_connectivity_supported"):
+                    okuse = True
+                if not okuse:
+                    uses.append(f"{fn_.__name__}: {ast.unparse(par) if par is not None else pname}"[:120])
+    if uses:
+        ctx.record(fam, UNKNOWN)
+        ctx.undecide(fam, f"the connectivity name is used beyond ==/!=/membership in a display of literals ({uses[:3]}): the 'any other string' proxy does not represent such code; "
+                          "the all-strings argument is withdrawn, the name grid (documented names, their substrings / case / padding variants, junk) still decides natively")
+        return
     regions = [RegionInt(None, ints[0] - 1)]
     for a, b in zip(ints, ints[1:] + [None]):
         regions.append(RegionInt(a, a))
@@ -433,7 +463,11 @@ def run(ctx: core.Ctx):
     gate_proxies(ctx)
     t = time.time()
     file_names = sorted({c for _, c, _ in adapt.data_files("stabilizer")} | {c for _, c, _ in adapt.data_files("mub")})
-    names = sorted(set(docs.NAMES + ["", "zzz", "Linear", "ALL"]) | set(file_names))      # every name for which ANY table file exists is probed
+    near = set()
+    for nm in set(docs.NAMES) | set(file_names):      # near-literal names: every substring, case / padding variants, doubled, reversed, and single letters
+        near |= {nm[i:j] for i in range(len(nm)) for j in range(i + 1, len(nm) + 1)}
+        near |= {nm.upper(), nm.lower(), nm.capitalize(), nm + " ", " " + nm, nm + nm, nm[::-1], nm + "s", nm + "\n"}
+    names = sorted(set(docs.NAMES + ["", "zzz", "Linear", "ALL"]) | set(file_names) | near)      # every name for which ANY table file exists is probed
     ctx.extra["connectivity_names_probed"] = names
     res = core.pmap(entry_job, [(n, nm) for n in range(1, 9) for nm in names], chunks=1)
     dom = core.pmap(dominance_job, docs.ADVERTISED, chunks=1)
